@@ -91,6 +91,98 @@ func (e *Engine) queueLockDiscipline(r *Report, rule string) {
 	// constructor exempt: NewTagged
 }
 
+// checkLinkHelpers: the doubly linked list surgery shared by the file chain and
+// the group list (shared by C10 and C12).
+func (e *Engine) checkLinkHelpers(r *Report, rule string) {
+	gp, gn := "invoke(queue.link.getPrev)(p0)", "invoke(queue.link.getNext)(p0)"
+	nonNil := func(x string) string { return "!call(reflect.(Value).IsNil)(call(reflect.ValueOf)(" + x + "))" }
+	type step struct{ what, instr, guard string }
+	specs := map[string][]step{
+		"queue.unlink": {
+			{"prev.next ← next", "invoke(queue.link.setNext)(" + gp + ", " + gn + ")", nonNil(gp)},
+			{"node.prev ← nil", "invoke(queue.link.setPrev)(p0, nil)", nonNil(gp)},
+			{"next.prev ← prev", "invoke(queue.link.setPrev)(" + gn + ", " + gp + ")", nonNil(gn)},
+			{"node.next ← nil", "invoke(queue.link.setNext)(p0, nil)", nonNil(gn)},
+		},
+		"queue.addAfter": {
+			{"node.next ← prev.next", "invoke(queue.link.setNext)(p0, invoke(queue.link.getNext)(p1))", ""},
+			{"node.prev ← prev", "invoke(queue.link.setPrev)(p0, p1)", ""},
+			{"prev.next ← node", "invoke(queue.link.setNext)(p1, p0)", ""},
+			{"old next.prev ← node", "invoke(queue.link.setPrev)(invoke(queue.link.getNext)(p1), p0)", nonNil("invoke(queue.link.getNext)(p1)")},
+		},
+		"queue.addBefore": {
+			{"node.next ← next", "invoke(queue.link.setNext)(p0, p1)", ""},
+			{"node.prev ← next.prev", "invoke(queue.link.setPrev)(p0, invoke(queue.link.getPrev)(p1))", ""},
+			{"next.prev ← node", "invoke(queue.link.setPrev)(p1, p0)", ""},
+			{"old prev.next ← node", "invoke(queue.link.setNext)(invoke(queue.link.getPrev)(p1), p0)", nonNil("invoke(queue.link.getPrev)(p1)")},
+		},
+	}
+	for _, name := range []string{"queue.unlink", "queue.addAfter", "queue.addBefore"} {
+		fn := needFn(e, r, rule, name)
+		if fn == nil {
+			continue
+		}
+		all := e.findInstrs(fn, "invoke(queue.link.«(setNext|setPrev)»)(§)", false)
+		r.Check(len(all) == len(specs[name]), rule, name+": exactly the four pointer updates", e.Pos(fn.Pos()), fmt.Sprintf("%d pointer updates found", len(all)), len(all))
+		for _, st := range specs[name] {
+			got := e.findInstrs(fn, st.instr, false)
+			ok := len(got) == 1
+			if ok && st.guard != "" {
+				ok = hasStr(e.domConds(got[0].Block()), st.guard)
+			}
+			r.Check(ok, rule, name+": "+st.what, e.Pos(fn.Pos()), "the link surgery lost or changed this pointer update (or its nil guard): the chain/list is left inconsistent", 1, st.instr)
+		}
+		// old neighbour read before it is overwritten
+		if name != "queue.unlink" {
+			rd := "invoke(queue.link.getNext)(p1)"
+			wr := "invoke(queue.link.setNext)(p1, p0)"
+			if name == "queue.addBefore" {
+				rd, wr = "invoke(queue.link.getPrev)(p1)", "invoke(queue.link.setPrev)(p1, p0)"
+			}
+			a, b := e.findInstrs(fn, rd, false), e.findInstrs(fn, wr, false)
+			r.Check(len(a) == 1 && len(b) == 1 && precedes(a[0], b[0]), rule, name+": the old neighbour is read before the anchor's pointer is overwritten", e.Pos(fn.Pos()), "the neighbour is read after it was overwritten (the node would point at itself)", 1)
+		}
+	}
+	for name, want := range map[string][2]string{"queue.insertAfter": {"call(queue.unlink)(p0)", "call(queue.addAfter)(p0, p1)"}, "queue.insertBefore": {"call(queue.unlink)(p0)", "call(queue.addBefore)(p0, p1)"}} {
+		if fn := needFn(e, r, rule, name); fn != nil {
+			a, b := e.findInstrs(fn, want[0], false), e.findInstrs(fn, want[1], false)
+			r.Check(len(a) == 1 && len(b) == 1 && precedes(a[0], b[0]), rule, name+": unlink, then add", e.Pos(fn.Pos()), "a node is inserted without first being taken out of its old place", 1)
+		}
+	}
+	for _, t := range []string{"sortedFile", "sortedGroup"} {
+		for _, m := range [][2]string{{"setNext", "next"}, {"setPrev", "prev"}, {"getNext", "next"}, {"getPrev", "prev"}} {
+			fn := needFn(e, r, rule, "queue.(*"+t+")."+m[0])
+			if fn == nil {
+				continue
+			}
+			if strings.HasPrefix(m[0], "set") {
+				vals := e.fieldStoreVals(fn, "queue."+t, m[1])
+				ok := len(vals) == 2
+				for _, v := range vals {
+					if v != "nil" && v != "assert(*queue."+t+")(p1)#0" {
+						ok = false
+					}
+				}
+				r.Check(ok, rule, "queue.(*"+t+")."+m[0]+" stores its argument (or nil) into "+m[1], e.Pos(fn.Pos()), "the setter writes "+strings.Join(vals, " | "), 1)
+			} else {
+				ok := false
+				Instrs(fn, func(in ssa.Instruction) {
+					if rt, ok2 := in.(*ssa.Return); ok2 && len(rt.Results) == 1 && e.Canon(rt.Results[0]) == "p0."+m[1] {
+						ok = true
+					}
+				})
+				r.Check(ok, rule, "queue.(*"+t+")."+m[0]+" returns "+m[1], e.Pos(fn.Pos()), "the getter returns another field", 1)
+			}
+		}
+	}
+	if fn := needFn(e, r, rule, "queue.(*Tagged).removeFile"); fn != nil {
+		hd := e.findInstrs(fn, "mapupdate(p0.headFile[p1.group.name] = p1.next)", false)
+		ok := len(hd) == 1 && hasStr(e.domConds(hd[0].Block()), "(p0.headFile[p1.group.name] == p1)")
+		dl := e.findInstrs(fn, "builtin(delete)(p0.byFile, invoke(sts.Hashed.GetName)(p1.orig))", false)
+		r.Check(ok && len(dl) == 1, rule, "queue.(*Tagged).removeFile: head moves to the successor only when the head is removed; the file leaves the index", e.Pos(fn.Pos()), "removing a file no longer keeps head and index consistent", 2)
+	}
+}
+
 func ast_IsExported(name string) bool { return name != "" && name[0] >= 'A' && name[0] <= 'Z' }
 
 func rulesC10(e *Engine, r *Report) {
@@ -303,6 +395,8 @@ func rulesC10(e *Engine, r *Report) {
 		cut := e.findInstrs(fn, "mapupdate(p0.list[§.name] = p0.list[§.name][phi((phi# + 1)|0):])", false)
 		r.Check(len(cut) == 1, "R10.6", "queue.(*Tagged).Pop: the group list is cut by the number of placeholders skipped", e.Pos(fn.Pos()), "the sorted list and the chain get out of step after skipping placeholders", 1)
 	}
+	r.Rule("R10.7", "chain surgery: unlink/addAfter/addBefore perform exactly their four pointer updates under the right nil guards (the old neighbour is read before it is overwritten), insert = unlink then add, the setters/getters touch the like-named pointer, removeFile keeps head and index consistent")
+	e.checkLinkHelpers(r, "R10.7")
 }
 
 func rulesC12(e *Engine, r *Report) {
@@ -435,6 +529,8 @@ func rulesC12(e *Engine, r *Report) {
 		r.Check(okh, "R12.3", "queue.(*Tagged).delayGroup: head follows when the head group is rotated", e.Pos(fn.Pos()), "rotating the head group does not hand the head to its successor", 1)
 	}
 	e.queueLockDiscipline(r, "R12.4")
+	r.Rule("R12.5", "list surgery: unlink/addAfter/addBefore perform exactly their four pointer updates under the right nil guards (the old neighbour is read before it is overwritten), insert = unlink then add, the setters/getters touch the like-named pointer, removeFile keeps head and index consistent (the group list and the file chain share these helpers)")
+	e.checkLinkHelpers(r, "R12.5")
 	r.Rule("R12.4", "lock discipline as R10.1 (the group list is only touched under q.mux)")
 }
 
